@@ -10,6 +10,10 @@
      nApps (prio cpu mem)*
      nPods (phase plabel pval qlabel kube reqCPU reqMem has mprio useCPU useMem numa)*
      nDang (prio cpu mem)*
+     [annoKind aCpuReclaim aMemReclaim aCpuThr aMemThr lblCpuKind lblCpuH lblMemKind lblMemH]
+       optional: the node's colocation-strategy annotation (1 well-formed, 2/3 malformed; -1 = field
+       absent) and reclaim-ratio labels (kind 1 = "h/100"); the strategy fields above are the cluster
+       strategy and the effective one is Model.resolve_strategy (real: sloconfig.GetNodeColocationStrategy)
    observable: run(base) ++ run(perturbed), each as documented at Model.run_batch *)
 From Coq Require Import List ZArith Bool.
 From Verif Require Import Lib.Wire C09.Model C09.Spec.
@@ -34,8 +38,13 @@ Definition decode_b (l : list Z) : binput :=
       let '(zs, t1) := decode_seq dec_pair t in
       let '(apps, t2) := decode_seq dec_amt t1 in
       let '(pods, t3) := decode_seq dec_pod t2 in
-      let '(dang, _) := decode_seq dec_amt t3 in
-      mkB (mkStrategy cp mp cr mr ct mt dg) age cc cm ac am (zb af) anc anm anr sc sm zs apps pods dang
+      let '(dang, t4) := decode_seq dec_amt t3 in
+      let nc := match t4 with
+                | ak :: a1 :: a2 :: a3 :: a4 :: k1 :: h1 :: k2 :: h2 :: _ => mkNodeCfg ak a1 a2 a3 a4 k1 h1 k2 h2
+                | _ => nodecfg0
+                end in
+      mkB (resolve_strategy (mkStrategy cp mp cr mr ct mt dg) nc)
+          age cc cm ac am (zb af) anc anm anr sc sm zs apps pods dang
   | _ => mkB (mkStrategy 0 0 0 0 (-1) (-1) 1) (-1) 0 0 0 0 false 0 0 0 0 0 [] [] [] []
   end.
 
